@@ -268,9 +268,76 @@ func closeScenario(t *testing.T, c closeCase) closeResult {
 	return out
 }
 
+// keepaliveCloseTellsPeer: the connection closes itself (keepalive: nothing arrives from the peer any
+// more) while the other direction of the transport still works. That Close, too, must tell the peer
+// with a FIN, so that the peer's blocked Recv fails right away instead of waiting for its own
+// keepalive. Returns how long after the local closure the peer's Recv failed (-1: not within 30 s).
+func keepaliveCloseTellsPeer(t *testing.T, n uint8) (after time.Duration, closedLocally bool, bad string) {
+	sc := &GbnScenario{Name: fmt.Sprintf("keepalive-close-tells-peer-n%d", n), N: n, Latency: 20 * time.Millisecond,
+		PingNs: int64(5 * time.Second), PongNs: int64(3 * time.Second), Static: time.Second}
+	after = -1
+	res := RunGbnBody(t, sc, func(sim *Sim, conns [2]*gbn.GoBackNConn, res *GbnResult) {
+		peerFailed := make(chan time.Time, 1)
+		res.tw.Add(2)
+		go func() {
+			defer res.tw.Done()
+			for {
+				if _, err := conns[1].Recv(); err != nil {
+					peerFailed <- time.Now()
+					return
+				}
+			}
+		}()
+		go func() {
+			defer res.tw.Done()
+			for {
+				if _, err := conns[0].Recv(); err != nil {
+					return
+				}
+			}
+		}()
+		time.Sleep(1300 * time.Millisecond)
+		// from now on nothing the peer (endpoint 1) sends arrives; what endpoint 0 sends still does
+		sim.pipes[1].mu.Lock()
+		sim.pipes[1].silent = true
+		sim.pipes[1].mu.Unlock()
+		var closedAt time.Time
+		for i := 0; i < 1200 && closedAt.IsZero(); i++ {
+			time.Sleep(50 * time.Millisecond)
+			if conns[0].VClosed() {
+				closedAt = time.Now()
+			}
+		}
+		if closedAt.IsZero() {
+			return
+		}
+		closedLocally = true
+		select {
+		case at := <-peerFailed:
+			after = at.Sub(closedAt)
+			if after < 0 {
+				after = 0
+			}
+		case <-time.After(30 * time.Second):
+		}
+	})
+	return after, closedLocally, res.Panic
+}
+
 func TestC12(t *testing.T) {
 	r := NewRecorder(t, "C12")
 	defer r.Close(t)
+	for _, n := range []uint8{1, 20} {
+		after, closed, bad := keepaliveCloseTellsPeer(t, n)
+		name := fmt.Sprintf("keepalive-close-tells-peer:n=%d", n)
+		switch {
+		case bad != "":
+			r.Violate("C12/panic", bad, name)
+		case closed && (after < 0 || after > 2*time.Second):
+			r.Violate("C12/peer-not-told", fmt.Sprintf("window %d, keepalive 5 s / 3 s: nothing arrives from the peer any more, the connection closes itself while its own sending direction still works; the peer's blocked Recv failed %v after that closure (-1ns: not within 30 s) - no FIN reached it", n, after), name)
+		}
+		r.Case(name, true, "keepalive-close")
+	}
 	var cases []closeCase
 	grid := []time.Duration{0, 5 * time.Millisecond, 40 * time.Millisecond, 150 * time.Millisecond, 400 * time.Millisecond,
 		1100 * time.Millisecond, 2500 * time.Millisecond, 6 * time.Second}
